@@ -21,6 +21,8 @@ FAULTS = [
     ("py-page-signature", ['<%page args="a=="/>'], 0, 0),
     ("py-filter-list", ["${x | f(}"], 0, 0),
     ("py-attribute-expression", ['<%include file="${1 +}"/>'], 0, 0),
+    ("py-attribute-expression-multiline", ['<%include file="${', "   1 +* 2", '}"/>'], 1, 0),
+    ("py-attribute-expression-blank-lines", ['<%include file="${', "", "", "   3 +* 4 }\"/>"], 3, 0),
     ("unterminated-expression", ["${ x + 1", "more text"], 0, 0),
     ("unterminated-block", ["<% x = 1", "more text"], 0, 0),
     ("unknown-tag", ["<%foo>", "</%foo>"], 0, 0),
